@@ -177,6 +177,18 @@ def forbidden_scan(files):
         src_nc = re.sub(r"\(\*.*?\*\)", "", src, flags=re.S)
         for m in FORBIDDEN.finditer(src_nc):
             bad.append("%s: %s" % (f, m.group(0)))
+        # Variable / Hypothesis / Context outside any Section would declare an axiom
+        open_sections = []
+        for m in re.finditer(r"(?m)^\s*(Section|End|Module(?:\s+Type)?|Variables?|Hypothes[ie]s|Context|Let)\s+([A-Za-z_][A-Za-z0-9_']*)?", src_nc):
+            kw, name = m.group(1), m.group(2)
+            if kw == "Section" or kw.startswith("Module"):
+                open_sections.append((kw, name))
+            elif kw == "End":
+                if open_sections:
+                    open_sections.pop()
+            elif kw in ("Variable", "Variables", "Hypothesis", "Hypotheses", "Context"):
+                if not any(k == "Section" for k, _ in open_sections):
+                    bad.append("%s: %s outside a Section" % (f, kw))
     return bad
 
 
